@@ -4,8 +4,8 @@ from propslib import comp_scope
 PROP = dict(
     extract=["editor"],
     lean_targets=["Chewing.Props.C04", "Chewing.Props.C04Editor"],
-    runs=[dict(bin="comp"), dict(bin="editor")],
-    scope=comp_scope("comp", "cedi", "ed"),
+    runs=[dict(bin="comp"), dict(bin="editor"), dict(bin="conv")],
+    scope=comp_scope("comp", "cedi", "ed", "conv"),
     level="proof",
     exhaustive=False,
     rule="one evaluation = one call of a public method of the real Composition / CompositionEditor, recomputed by the "
@@ -17,7 +17,12 @@ PROP = dict(
          "changes), recomputed by the editor model from the implementation's own full pre-state and compared on the complete "
          "post-state; on every such step the ledger oracle oracle_c04.rs evaluates the property itself on the real editor "
          "(choices and break points carried from the pre- to the post-snapshot through the edit and the auto-commit, "
-         "displayed / committed text over every choice, every conversion answer of the step against breaks and choices)",
+         "displayed / committed text over every choice, every conversion answer of the step against breaks and choices). "
+         "Engine level (`conv` records, run conv, added in round 3 after the seeded change C04-spelling-fallback-before-forced-selection "
+         "was missed): one evaluation = one conversion of a generated composition (breaks, glue, selections whose text IS and is NOT "
+         "a dictionary word of the range) by the three real engines, recomputed by C03's engine model, with the C04 half of the "
+         "oracle of conv.rs: every selection is shown with its own text over exactly its range in every alternative and no "
+         "interval spans a break",
     trusted_base=["kernel evaluation (decide +kernel) only in the non-vacuity examples of Props/C04Editor.lean (concrete histories over "
                   "C03's engine model); all theorems are structural (simp/omega over lists, case analysis over the arms of the "
                   "state machine, induction over histories)",
